@@ -120,6 +120,9 @@ def reader(fx, f, des_impls):
         for e in row.events:
             if e[0] == "call" and (e[1].endswith("Deserializable>::deserialize") or e[1].endswith("Deserializable::deserialize")):
                 ty = self_type_of_callee(e[1]) or ((e[5] or {}).get("args") or ["?"])[0]
+                conc = ((e[5] or {}).get("args") or [None])[0]
+                if ty and " N]" in ty and conc and conc.startswith("[u8;"):
+                    ty = conc     # concrete array length of this call
                 calls.append((ty, e))
         val = T.resolve_locals(eng, row.store, T.field(row.ret, "0"))
         out.append((row, calls, val))
